@@ -158,7 +158,7 @@ class TrainerWorld(World):
                "lr_a3": rc.choice([0.05, 0.3, 1.0]), "lr_b3": rc.choice([0.05, 0.2, 1.0]),
                "tc_a": rc.choice([2.0, 5.0, 20.0]), "tc_b": rc.choice([3.0, 8.0, 20.0]), "tc_slow": rc.choice([30.0, 60.0]), "tc_z": rc.choice([5.0, 25.0]),
                "trace": rc.choice(["cumulative", "nearest"]), "reduce": rc.choice(["sum", "mean", "mean", "amax"]),
-               "spy": rc.random() < 0.5, "tol": 0.0}
+               "spy": rc.random() < 0.5, "tol": 0.0, "override": rc.random() < 0.25}
         if ckind == "dense":
             cfg["inshape"], cfg["outshape"] = rc.choice([[2], [3], [2, 2]]), rc.choice([[1], [2], [3]])
         elif ckind in ("direct", "lateral"):
@@ -252,7 +252,8 @@ class TrainerWorld(World):
         conn.updater = conn.defaultupdater()
         return layer, conn, nrn
 
-    def _build_trainer(self, cfg, name=None):
+    def _trainer_spec(self, cfg, name=None):
+        """(class, positional args, keyword hyper-parameters) of the trainer under test"""
         import inferno.functional as IF
         from inferno import learn
 
@@ -261,35 +262,74 @@ class TrainerWorld(World):
         a, b = cfg["lr_a"], cfg["lr_b"]
         delayed = cfg["dmode"] == "delayed"
         if name == "STDP":
-            return learn.STDP(lr_post=a, lr_pre=b, tc_post=cfg["tc_b"], tc_pre=cfg["tc_a"], delayed=delayed, interp_tolerance=cfg["tol"], trace_mode=cfg["trace"], batch_reduction=red)
+            return learn.STDP, (), dict(lr_post=a, lr_pre=b, tc_post=cfg["tc_b"], tc_pre=cfg["tc_a"], delayed=delayed, interp_tolerance=cfg["tol"], trace_mode=cfg["trace"], batch_reduction=red)
         if name == "TripletSTDP":
-            return learn.TripletSTDP(lr_post_pair=a, lr_post_triplet=cfg["lr_a3"], lr_pre_pair=b, lr_pre_triplet=cfg["lr_b3"], tc_post_fast=cfg["tc_b"], tc_post_slow=cfg["tc_slow"] + cfg["tc_b"],
-                                     tc_pre_fast=cfg["tc_a"], tc_pre_slow=cfg["tc_slow"] + cfg["tc_a"], delayed=delayed, interp_tolerance=cfg["tol"], trace_mode=cfg["trace"], batch_reduction=red)
+            return learn.TripletSTDP, (), dict(lr_post_pair=a, lr_post_triplet=cfg["lr_a3"], lr_pre_pair=b, lr_pre_triplet=cfg["lr_b3"], tc_post_fast=cfg["tc_b"], tc_post_slow=cfg["tc_slow"] + cfg["tc_b"],
+                                              tc_pre_fast=cfg["tc_a"], tc_pre_slow=cfg["tc_slow"] + cfg["tc_a"], delayed=delayed, interp_tolerance=cfg["tol"], trace_mode=cfg["trace"], batch_reduction=red)
         if name == "MSTDP":
-            return learn.MSTDP(lr_post=a, lr_pre=b, tc_post=cfg["tc_b"], tc_pre=cfg["tc_a"], delayed=delayed, interp_tolerance=cfg["tol"], trace_mode=cfg["trace"], batch_reduction=red)
+            return learn.MSTDP, (), dict(lr_post=a, lr_pre=b, tc_post=cfg["tc_b"], tc_pre=cfg["tc_a"], delayed=delayed, interp_tolerance=cfg["tol"], trace_mode=cfg["trace"], batch_reduction=red)
         if name == "MSTDPET":
-            return learn.MSTDPET(lr_post=a, lr_pre=b, tc_post=cfg["tc_b"], tc_pre=cfg["tc_a"], tc_eligibility=cfg["tc_z"], interp_tolerance=cfg["tol"], trace_mode=cfg["trace"], batch_reduction=red)
+            return learn.MSTDPET, (), dict(lr_post=a, lr_pre=b, tc_post=cfg["tc_b"], tc_pre=cfg["tc_a"], tc_eligibility=cfg["tc_z"], interp_tolerance=cfg["tol"], trace_mode=cfg["trace"], batch_reduction=red)
         if name == "DelayAdjustedSTDP":
-            return learn.DelayAdjustedSTDP(lr_pos=a, lr_neg=b, tc_pos=cfg["tc_a"], tc_neg=cfg["tc_b"], batch_reduction=red)
+            return learn.DelayAdjustedSTDP, (), dict(lr_pos=a, lr_neg=b, tc_pos=cfg["tc_a"], tc_neg=cfg["tc_b"], batch_reduction=red)
         if name == "DelayAdjustedSTDPD":
-            return learn.DelayAdjustedSTDPD(lr_neg=a * 0.2, lr_pos=b * 0.2, tc_neg=cfg["tc_a"], tc_pos=cfg["tc_b"], batch_reduction=red)
+            return learn.DelayAdjustedSTDPD, (), dict(lr_neg=a * 0.2, lr_pos=b * 0.2, tc_neg=cfg["tc_a"], tc_pos=cfg["tc_b"], batch_reduction=red)
         if name == "DelayAdjustedMSTDP":
-            return learn.DelayAdjustedMSTDP(lr_pos=a, lr_neg=b, tc_pos=cfg["tc_a"], tc_neg=cfg["tc_b"], batch_reduction=red)
+            return learn.DelayAdjustedMSTDP, (), dict(lr_pos=a, lr_neg=b, tc_pos=cfg["tc_a"], tc_neg=cfg["tc_b"], batch_reduction=red)
         if name == "DelayAdjustedMSTDPD":
-            return learn.DelayAdjustedMSTDPD(lr_neg=a * 0.2, lr_pos=b * 0.2, tc_neg=cfg["tc_a"], tc_pos=cfg["tc_b"], batch_reduction=red)
+            return learn.DelayAdjustedMSTDPD, (), dict(lr_neg=a * 0.2, lr_pos=b * 0.2, tc_neg=cfg["tc_a"], tc_pos=cfg["tc_b"], batch_reduction=red)
         kpost = dict(learning_rate=a, time_constant=cfg["tc_a"])
         kpre = dict(learning_rate=b, time_constant=cfg["tc_b"])
+        kern = (IF.exp_stdp_post_kernel, IF.exp_stdp_pre_kernel)
         if name == "KernelSTDP":
-            return learn.KernelSTDP(IF.exp_stdp_post_kernel, IF.exp_stdp_pre_kernel, kpost, kpre, delayed=delayed, interp_tolerance=cfg["tol"], batch_reduction=red)
+            return learn.KernelSTDP, kern, dict(kernel_post_kwargs=kpost, kernel_pre_kwargs=kpre, delayed=delayed, interp_tolerance=cfg["tol"], batch_reduction=red)
         if name == "DelayAdjustedKernelSTDP":
-            return learn.DelayAdjustedKernelSTDP(IF.exp_stdp_post_kernel, IF.exp_stdp_pre_kernel, kpost, kpre, batch_reduction=red)
+            return learn.DelayAdjustedKernelSTDP, kern, dict(kernel_post_kwargs=kpost, kernel_pre_kwargs=kpre, batch_reduction=red)
         if name == "DelayAdjustedKernelSTDPD":
             kpost = dict(learning_rate=a * 0.2, time_constant=cfg["tc_a"])
             kpre = dict(learning_rate=b * 0.2, time_constant=cfg["tc_b"])
-            return learn.DelayAdjustedKernelSTDPD(IF.exp_stdp_post_kernel, IF.exp_stdp_pre_kernel, kpost, kpre, batch_reduction=red)
+            return learn.DelayAdjustedKernelSTDPD, kern, dict(kernel_post_kwargs=kpost, kernel_pre_kwargs=kpre, batch_reduction=red)
         if name == "LinearHomeostasis":
-            return learn.LinearHomeostasis(cfg["plasticity"], cfg["target"], cfg["param"], batch_reduction=red)
+            return learn.LinearHomeostasis, (), dict(plasticity=cfg["plasticity"], target=cfg["target"], param=cfg["param"], batch_reduction=red)
         raise ValueError(name)
+
+    @staticmethod
+    def _decoy(kw):
+        """different trainer-level defaults (other signs, time constants, trace mode, reduction): a cell registered with
+        per-cell overrides must be governed by the overrides alone"""
+        out = {}
+        for k, v in kw.items():
+            if k.startswith("lr_") or k == "plasticity":
+                out[k] = -1.5 * v if v else 0.1
+            elif k.startswith("tc_"):
+                out[k] = 1.7 * v
+            elif k == "target":
+                out[k] = min(0.95, 1.9 * v)
+            elif k == "trace_mode":
+                out[k] = "nearest" if v == "cumulative" else "cumulative"
+            elif k == "batch_reduction":
+                out[k] = torch.mean if v is torch.sum else torch.sum
+            elif k in ("kernel_post_kwargs", "kernel_pre_kwargs"):
+                out[k] = dict(learning_rate=-1.5 * v["learning_rate"], time_constant=1.7 * v["time_constant"])
+            elif k == "delayed":
+                out[k] = False
+            else:
+                out[k] = v
+        return out
+
+    def _build_trainer(self, cfg, name=None):
+        """trainer constructed with the hyper-parameters under test (or, in override mode, with decoy defaults)"""
+        cls, args, kw = self._trainer_spec(cfg, name)
+        if cfg.get("override"):
+            return cls(*args, **self._decoy(kw))
+        return cls(*args, **kw)
+
+    def _register(self, trainer, cell, cfg, name=None):
+        """register the cell; in override mode the real hyper-parameters arrive as per-cell overrides"""
+        if cfg.get("override"):
+            _, _, kw = self._trainer_spec(cfg, name)
+            return trainer.register_cell("c", cell, **kw)
+        return trainer.register_cell("c", cell)
 
     # ------------------------------------------------------------------ execution
     def execute(self, desc, ctx):
@@ -314,7 +354,7 @@ class TrainerWorld(World):
             for n in names:
                 layer, conn, nrn = self._build_layer(cfg, geom)
                 tr = self._build_trainer(cfg, n)
-                tr.register_cell("c", layer.cell)
+                self._register(tr, layer.cell, cfg, n)
                 layer.train()
                 tr.train()
                 reps.append((layer, conn, nrn, tr))
@@ -362,7 +402,7 @@ class _Run:
         self.B = cfg["B"]
         a, b = cfg["lr_a"], cfg["lr_b"]
         self.mode = ("pot" if a >= 0 and b >= 0 else "dep" if a < 0 and b < 0 else "hebb" if a >= 0 else "anti")
-        self.facts = {"trainer": self.name, "ckind": cfg["ckind"], "dt": self.dt, "signs": self.mode, "trace": cfg["trace"], "dmode": cfg["dmode"],
+        self.facts = {"override": bool(cfg.get("override")), "trainer": self.name, "ckind": cfg["ckind"], "dt": self.dt, "signs": self.mode, "trace": cfg["trace"], "dmode": cfg["dmode"],
                       "reduce": cfg["reduce"], "neuron": cfg["neuron"], "B": self.B}
 
     # ---- model state ---------------------------------------------------------------
@@ -533,7 +573,7 @@ class _Run:
         with ctx.impl("build", facts) as reg:
             self.layer, self.conn, self.nrn = self.w._build_layer(cfg, g)
             self.trainer = self.w._build_trainer(cfg)
-            self.trainer.register_cell("c", self.layer.cell)
+            self.w._register(self.trainer, self.layer.cell, cfg)
             self.layer.train()
             self.trainer.train()
         if reg.waived:
